@@ -355,7 +355,7 @@ impl<'a> Case<'a> {
     fn input(&self, extra: serde_json::Value) -> serde_json::Value {
         serde_json::json!({
             "block": "c04", "scenario_seed": format!("{:#x}", self.seed), "kind": self.sc.kind, "case": self.id,
-            "links": self.sc.net.iter().skip(1).map(|l| serde_json::json!([l.idx_curr.idx(), l.length.value, l.idx_flip.idx(), l.idx_next.idx(), l.idx_next_alt.idx(), l.link_idxs_lockout.iter().map(|x| x.idx()).collect::<Vec<_>>()])).collect::<Vec<_>>(),
+            "links": if self.sc.kind == "taconite" { vec![serde_json::json!("python/altrios/resources/networks/Taconite.yaml as shipped in the tree under test")] } else { self.sc.net.iter().skip(1).map(|l| serde_json::json!([l.idx_curr.idx(), l.length.value, l.idx_flip.idx(), l.idx_next.idx(), l.idx_next_alt.idx(), l.link_idxs_lockout.iter().map(|x| x.idx()).collect::<Vec<_>>()])).collect::<Vec<_>>() },
             "links_legend": "[idx, length_m, flip, next, next_alt, lockouts]",
             "trains": self.sc.trains.iter().zip(&self.sc.routes).map(|(t, r)| serde_json::json!({"length_m": t.state.length.value, "depart_s": t.state.time.value, "orig": r.2, "dest": r.3})).collect::<Vec<_>>(),
             "detail": extra,
@@ -606,7 +606,41 @@ pub fn dump(sc: &Scen, snaps: &[Snap], plan: &Option<Vec<Vec<(usize, f64)>>>) {
     if let Some(p) = plan { for v in p { eprintln!("  plan {:?}", v); } }
 }
 
+/// the shipped Taconite network with the crate's own example trains: 2..5 trains, random directions, departures up to
+/// 2.5 h apart (same generator as block c05, so a scenario seed means the same scenario in both)
+pub fn gen_taconite_scen(r: &mut Rng) -> Option<Scen> {
+    use altrios_core::train::{speed_limit_train_sim_fwd, speed_limit_train_sim_rev};
+    use altrios_core::traits::SerdeAPI;
+    static NET: std::sync::OnceLock<Option<Vec<Link>>> = std::sync::OnceLock::new();
+    let net = NET.get_or_init(|| {
+        let repo = std::env::var("VERIF_REPO").unwrap_or_else(|_| "/repo".to_string());
+        let p = std::path::Path::new(&repo).join("python/altrios/resources/networks/Taconite.yaml");
+        guard(|| Network::from_file(p).ok().map(|n| n.0)).flatten()
+    });
+    let net = net.as_ref()?;
+    let nt = r.usize(2, 5);
+    let mut trains = vec![];
+    let mut routes = vec![];
+    for t in 0..nt {
+        let east = if t < 2 { t == 0 } else { r.chance(0.5) };
+        let mut s = if east { speed_limit_train_sim_fwd() } else { speed_limit_train_sim_rev() };
+        s.state.time = altrios_core::uc::S * (r.range(0, 6) as f64 * 1800.0);
+        s.train_id = format!("T{}{}", t + 1, if east { "fwd" } else { "rev" });
+        routes.push((0usize, east, s.origs[0].link_idx.idx() as u32, s.dests[0].link_idx.idx() as u32));
+        trains.push(s);
+    }
+    Some(Scen { net: net.clone(), lines: vec![], trains, routes, kind: "taconite".to_string() })
+}
+
 pub fn run(ctx: &mut Ctx, r: &mut Rng, tier: &str) {
+    if let Ok(sd) = std::env::var("C04_TACONITE_SEED") {
+        let seed: u64 = sd.parse().unwrap();
+        let mut rr = Rng(seed);
+        if let Some(sc) = gen_taconite_scen(&mut rr) { run_scen(ctx, &sc, seed, std::env::var("C04_VERBOSE").is_ok()); }
+        for fd in &ctx.findings { eprintln!("FINDING {} {}", fd.clause, fd.detail.chars().take(300).collect::<String>()); }
+        eprintln!("stats {:?}", ctx.stats);
+        return;
+    }
     // replay of one scenario: C04_SEED=<hex scenario_seed of a finding>
     if let Ok(sd) = std::env::var("C04_SEED") {
         let seed = u64::from_str_radix(sd.trim_start_matches("0x"), 16).unwrap();
@@ -622,5 +656,14 @@ pub fn run(ctx: &mut Ctx, r: &mut Rng, tier: &str) {
         let sc = gen_scen(&mut rr, 8);
         if sc.net.validate().is_err() { ctx.count("c04.net_invalid"); continue; }
         run_scen(ctx, &sc, seed, false);
+    }
+    let nt: usize = std::env::var("C04_NT").ok().and_then(|x| x.parse().ok()).unwrap_or(if tier == "thorough" { 16 } else { 2 });
+    for _ in 0..nt {
+        let mut rr = r.fork();
+        let seed = rr.0;
+        match gen_taconite_scen(&mut rr) {
+            Some(sc) => run_scen(ctx, &sc, seed, false),
+            None => ctx.count("c04.taconite_unavailable"),
+        }
     }
 }
